@@ -562,6 +562,27 @@ def range_grid_search(log):
     return {'witness': None, 'grid_points': len(exprs)}
 
 
+def str_index_grid_search(log):
+    """s[i] on the real library vs Python for ASCII and multi-byte strings, every i around the ends and the i32 extremes."""
+    strs = ['', 'a', 'abc', 'h\u00e9llo', '\u65e5\u672c\u8a9ex', 'x\U0001f600y\u00e9']
+    idx = list(range(-8, 9)) + [2**31 - 1, -(2**31), -(2**31) + 1]
+    exprs, wants = [], []
+    for t in strs:
+        lit = '"' + ''.join(c if ord(c) < 128 else ('\\u%04x' % ord(c) if ord(c) < 0x10000 else '\\U%08x' % ord(c)) for c in t) + '"'
+        for i in idx:
+            exprs.append('ord(%s[%d])' % (lit, i))
+            try:
+                wants.append('OK %d' % ord(t[i]))
+            except IndexError:
+                wants.append('ERR')
+    outs = eval_many(exprs, log)
+    for e, o, w in zip(exprs, outs, wants):
+        good = o.startswith('ERR') if w == 'ERR' else o == w
+        if not good:
+            return {'witness': {'expression': e, 'real_library': o, 'oracle_python': w}, 'grid_points': len(exprs)}
+    return {'witness': None, 'grid_points': len(exprs)}
+
+
 def find_witness(prop, v, repo, log):
     if v.get('backend') == 'kani/cbmc':
         return kani_replay(v, log)
@@ -641,6 +662,10 @@ def find_witness(prop, v, repo, log):
     if '.range.' in oid or 'Range' in fn or fn.endswith('::range'):
         r = range_grid_search(log)
         r['search'] = 'range(a, b, s) for a, b in 10 boundary values x 10 steps: len, bool, r[i] at the ends, membership, equality, small slices and list() on the real library vs Python range'
+        return r
+    if 'C01.str.at' in oid or (prop == 'C01' and 'StarlarkStr' in fn):
+        r = str_index_grid_search(log)
+        r['search'] = '6 strings (empty, ASCII, 2-, 3- and 4-byte characters) x i in [-8,8]+i32 extremes: ord(s[i]) on the real library vs Python'
         return r
     if prop == 'C01':
         r = slice_grid_search(log)
